@@ -45,7 +45,7 @@ struct SaveWorld : World {
     std::vector<std::string> knob_names() const override { return {"application"}; }
     std::string components() const override { return "{\"real\": [\"src/cpp/savefile.cpp\", \"src/cpp/default-value.cpp\", \"src/cpp/ports-runtime.cpp\", \"src/cpp/ports.cpp (walk_ports, port_is_enabled, dispatch, canonicalize/map_arg_vals)\", \"src/cpp/pretty-format.c\", \"src/cpp/arg-val-*.c\", \"src/rtosc.c\", \"include/rtosc/port-sugar.h callbacks\"], "
         "\"stub\": [\"user issuing parameter messages\", \"disk (one file that survives the crash)\", \"process lifecycle (crash = the object is destroyed, restart = a default-initialised one)\"]}"; }
-    std::string rule() const override { return "one run = one of two hand-written applications (flat: every parameter kind; structured: preset-dependent defaults, enabled-by / enumerated / pointer sub-trees, a declared dependency) + a history of parameter sets interleaved with save->crash->restart->load cycles, each cycle with one file fault (none, lost write, torn write at byte k, flipped bit, foreign header, other application, unparsable line, unknown-port line). "
+    std::string rule() const override { return "one run = one of three hand-written applications (flat: every parameter kind; synth: preset-dependent defaults, enabled-by / enumerated / pointer sub-trees, a declared dependency; deps: enumerated units whose dependants are declared before their providers, chained default dependencies) + a history of parameter sets interleaved with save->crash->restart->load cycles, each cycle with one file fault (none, lost write, torn write at byte k, flipped bit, foreign header, other application, unparsable line, unknown-port line). "
         "C13 runs additionally load every permutation of the message lines (all for <= 6 lines, 200 seeded beyond) and of the file with each depended-on line deleted. evaluations = loads performed. Non-trivial = a savefile with at least one message line was loaded; distinct = distinct hash of the op sequence."; }
     std::string describe(const Op &op) const override {
         char b[200];
